@@ -520,6 +520,7 @@ def run(tier):
     rule_R9(res, prog)
     rule_R10(res, prog)
     rule_R11(res, prog)
+    rule_R12(res, prog)
     return res.finish()
 
 
@@ -882,4 +883,59 @@ def rule_R11(res, prog):
                          fn.relfile, bounds[0][0] if bounds else fn.line, [v for (_, v) in bounds] or "no constant", N),
                      file=fn.relfile, line=bounds[0][0] if bounds else fn.line)
     res.instance(rid, "sslGetCipherSpec: loop bound over disabledCiphers[] = %d slots" % N, okb, finding=f2)
+    res.floor(rid, 2)
+
+
+def rule_R12(res, prog):
+    """'the key-exchange group ... offered by the client in that handshake' (TLS <= 1.2 client): the named curve of an ECDHE
+    ServerKeyExchange is used (psEccNewKey / psEccX963ImportKey with the curve looked up from it) only after it was tested
+    against the session's own offer, psTestUserEcID(id, ssl->ecInfo.ecFlags), and a curve outside the offer leaves with an
+    error.  getEccParamById alone only says the curve is compiled in."""
+    from sa import cfgutil as cu
+    rid = "C07.R12"
+    res.rule(rid, "TLS <=1.2 client: the ServerKeyExchange curve is imported only after it was found in the session's offered curves")
+    fn = prog.fn("parseServerKeyExchange")
+
+    def offered_test(x):
+        for m in walk(x):
+            if m.get("k") == "call" and m.get("fn") == "psTestUserEcID" and len(m.get("a", [])) >= 2 and \
+                    any(q.get("k") == "mem" and q.get("f") == "ecFlags" for q in walk(m["a"][1])):
+                return True
+        return False
+
+    def uses_curve(x):
+        return any(m.get("k") == "call" and m.get("fn") in ("psEccNewKey", "psEccX963ImportKey") and
+                   any(q.get("k") == "var" and q.get("n") == "curve" for a in m.get("a", []) for q in walk(a)) for m in walk(x))
+    n_use = len(cu.find_sites(fn, lambda q: q.get("k") == "call" and q.get("fn") in ("psEccNewKey", "psEccX963ImportKey")))
+    if n_use == 0:
+        if prog.defined("USE_ECC_CIPHER_SUITE"):
+            raise AnalysisBroken("C07.R12: parseServerKeyExchange no longer imports an ECDHE public value")
+        res.floor(rid, 0)
+        return
+    esc = cu.escapes(fn, (fn.entry, None), offered_test, target_expr=uses_curve)
+    f_ = None
+    if esc is not None:
+        f_ = Finding(PROP, rid, fn.name, "ECDHE curve of the ServerKeyExchange not compared with the offer",
+                     "%s:%s parseServerKeyExchange(): the server's curve is used (via lines %s) without psTestUserEcID(id, ssl->ecInfo.ecFlags): "
+                     "any compiled-in curve is accepted, whatever supported_groups the client sent or its session options allow" % (
+                         fn.relfile, esc[-1][1], [p_[1] for p_ in esc[-6:-1]]), file=fn.relfile, line=esc[-1][1])
+    res.instance(rid, "parseServerKeyExchange: every path to the curve's use passes psTestUserEcID(.., ecFlags)", esc is None, finding=f_)
+    for b in fn.blocks:
+        t = b.get("term")
+        if t is None or "c" not in t or not offered_test(t["c"]):
+            continue
+        fail_k = None
+        for k in (0, 1):
+            for (txt, tr, nd) in cu._cond_atoms(t["c"], k == 0):
+                if txt.startswith("(psTestUserEcID(") and ((txt.endswith("!= 0)") and tr) or (txt.endswith("== 0)") and not tr) or (txt.endswith("< 0)") and tr)):
+                    fail_k = k
+                elif txt.startswith("psTestUserEcID(") and tr:
+                    fail_k = k
+        bad = cu.edge_only_errors(fn, b, fail_k) if fail_k is not None else 0
+        f2 = None
+        if bad is not None:
+            f2 = Finding(PROP, rid, fn.name, "`curve not offered` does not fail", "%s:%s parseServerKeyExchange(): the outcome `curve not in the "
+                         "offer` %s" % (fn.relfile, t["ln"], "is not recognised" if fail_k is None else "reaches the non-error return at line %s" % bad),
+                         file=fn.relfile, line=t["ln"])
+        res.instance(rid, "parseServerKeyExchange:%s `curve not offered` leaves with an error" % t["ln"], bad is None, finding=f2)
     res.floor(rid, 2)
